@@ -519,36 +519,44 @@ func judge(d, qual, mode string, m meta, u *universe, res, nilRes *planResult, s
 	planned := res.Err == ""
 	multi := len(m.Schemas) > 1
 	base := qbase(qual)
-	switch base {
-	case "empty":
+	// Scope rules. They are stated for "planning for a single-schema connection"; that is what BOTH
+	// requested qualifiers mean: the CLI passes the empty qualifier (schema apply / diff / inspect) or the
+	// custom one (migrate diff --qualifier) only when the connection is bound to a schema
+	// (cmdapi_oss.go: `if dev.URL.Schema != ""`), and migrate.PlanWithSchemaQualifier documents "this
+	// options require the changes to be scoped to one schema and returns an error otherwise". Keys of
+	// these plan-level rules carry the base qualifier only (not the hostile class).
+	spre := d + "|" + base + "|"
+	if base != "nil" {
 		switch {
 		case m.AddDropSch:
 			if planned {
-				v.viol = append(v.viol, violation{pre + "schema-change-planned|" + kinds, "a change set that adds/drops a schema was planned with the empty qualifier instead of being rejected", map[string]any{"plan": res.text()}})
+				v.viol = append(v.viol, violation{spre + "schema-change-planned|" + kinds, "a change set that adds/drops a schema was planned with the " + base + " qualifier instead of being rejected", map[string]any{"plan": res.text()}})
+			} else {
+				v.trivial = true
 			}
 			return v
 		case m.ModifySch && mode == "inplace":
-			// documented exception of CheckChangesScope: dev-database normalisation in place. The
-			// table-level statements of the plan are still looked at below.
+			// documented exception of CheckChangesScope: dev-database normalisation in place (with a
+			// custom qualifier other than the schema's name the real code rejects; either is accepted).
+			// The table-level statements of the plan are still looked at below.
 			v.ood = "modify-schema-inplace"
 		case m.ModifySch && (mode == "dump" || mode == "unsorted"):
 			v.ood = "modify-schema-dump-mode"
 		case m.ModifySch:
 			if planned {
-				v.viol = append(v.viol, violation{pre + "modify-schema-planned|mode=" + mode, "a ModifySchema change was planned with the empty qualifier and plan mode " + mode + " instead of being rejected", map[string]any{"plan": res.text()}})
+				v.viol = append(v.viol, violation{spre + "modify-schema-planned|mode=" + mode, "a ModifySchema change was planned with the " + base + " qualifier and plan mode " + mode + " instead of being rejected", map[string]any{"plan": res.text()}})
+			} else {
+				v.trivial = true
 			}
 			return v
 		}
 		if multi {
 			if planned {
-				v.viol = append(v.viol, violation{pre + "multi-schema-planned|" + kinds, fmt.Sprintf("a change set spanning the schemas %v was planned with the empty qualifier instead of being rejected", m.Schemas), map[string]any{"plan": res.text()}})
+				v.viol = append(v.viol, violation{spre + "multi-schema-planned|" + kinds, fmt.Sprintf("a change set spanning the schemas %v was planned with the %s qualifier instead of being rejected", m.Schemas, base), map[string]any{"plan": res.text()}})
+			} else {
+				v.trivial = true
 			}
 			return v
-		}
-	case "custom":
-		if (m.schemaLevel() || multi) && !planned {
-			v.trivial = true
-			return v // rejecting is fine: the property only speaks about the references of planned statements
 		}
 	}
 	if !planned {
@@ -564,7 +572,7 @@ func judge(d, qual, mode string, m meta, u *universe, res, nilRes *planResult, s
 	}
 	seen := map[string]bool{}
 	for _, st := range res.Stmts {
-		if st.SchemaSrc && (base != "empty" || v.ood != "") {
+		if st.SchemaSrc && (base == "nil" || v.ood != "") {
 			// schema statements are allowed without the empty qualifier, and are the documented
 			// exception in place; nothing is demanded of them.
 			continue
